@@ -130,7 +130,11 @@ def check(ctx):
                     if cnt == n and hit is None:
                         hit = (k, nums)
                     cnt += 1
-        if hit and hit[0] < len(ops) and ops[hit[0]][0] in "QSqs" and hit[1] and hit[1][0] not in (6, 3):
+        # (only a hook that runs in a call of its own direction: the unchanged library drops the verdict of the request-completion callbacks when
+        #  an unmatched response finalises a dangling request (RES_IDLE), and htp_tx_state_request_complete drops the verdict of TRANSACTION_COMPLETE;
+        #  the property asks for stickiness of what a call REPORTED, so those paths are left to the correspondence)
+        own_dir = hit and hit[0] < len(ops) and ((h <= 9 and ops[hit[0]][0] in "Qq") or (10 <= h <= 17 and ops[hit[0]][0] in "Ss"))
+        if hit and own_dir and hit[1] and hit[1][0] not in (6, 3):
             nref += 1
             if nref <= 2:
                 failing.append(i)
